@@ -21,6 +21,11 @@ UncrossedNext ==
   \/ \E l \in AllLogs, c \in ReplaySTHs : Update(l, "canon", c, "correct", "none")
   \/ \E l \in Logs, pf \in Proofs : \E c \in QuickReplays(l) : Update(l, "canon", c, pf, "none")
   \/ \E l \in Logs, f \in Faults : \E c \in QuickReplays(l) : Update(l, "canon", c, "correct", f)
+  \* the header family: every member over the honest trees of sizes 0 and MaxSize and the crafted ones to the log whose key
+  \* they were made from (WitnessHdr*.cfg checks the header properties for every member in chosen states); the ones over the largest honest tree and the crafted ones to every log, and to their own log under every fault
+  \/ \E l \in Logs : \E c \in {x \in HdrOf(l) : x.fam = "X" \/ (x.fam = "H" /\ x.size \in {0, MaxSize})} : Update(l, "canon", c, "correct", "none")
+  \/ \E l \in AllLogs, s \in Logs : \E c \in MainHdrs(s) : Update(l, "canon", c, "correct", "none")
+  \/ \E l \in Logs, f \in Faults : \E c \in {x \in FullHdrs(l) : x.hdr.alg = KeyAlg(l) /\ x.form # "garbage"} : Update(l, "canon", c, "empty", f)
   \/ NextRead
 
 \* cosigned reply carries the STH held after the step (as an action property so that it is
@@ -33,7 +38,7 @@ CONSTANTS CoverAliases,      \* spellings exercised in every reachable state
 \* candidates that a fresh row would accept (the ones a second history would be opened with)
 Acceptable(l) == {c \in PlainSTHs : ParsesFor(c, l) /\ c.ts = 1}
 \* a genuine STH the witness has (in all likelihood) never been offered
-UnseenDonor(l) == [k |-> "sth", fam |-> "H", size |-> MaxSize, ts |-> 2, signer |-> l, idf |-> "absent", over |-> None]
+UnseenDonor(l) == Mk([fam |-> "H", size |-> MaxSize, ts |-> 2], l, "absent", None, StdHdr(l), "signed")
 \* replayed signatures worth a behaviour of their own in state (held, offered): every content that a fresh row
 \* would accept, under the signature bytes of every STH offered so far (the stored one among them) and of one the
 \* witness has not met
@@ -92,21 +97,25 @@ HistProbe == \E l \in HistLogs :
                 \/ GetSTH(l, "canon", "none")
 \* the candidate refused for its signature in the last history-building step, if that is what the step was
 LastRefused == IF Depth >= 2 /\ Len(hist) >= Depth - 1 /\ hist[Depth - 1].cand # Garbage
-                  /\ (hist[Depth - 1].cand.signer = "bad" \/ IsReplay(hist[Depth - 1].cand))
+                  /\ (hist[Depth - 1].cand.signer = "bad" \/ IsReplay(hist[Depth - 1].cand) \/ IsHdr(hist[Depth - 1].cand))
                THEN hist[Depth - 1].cand ELSE None
 \* ... is then offered once more (a refusal must be repeated: no verdict may be remembered before it is reached), and
 \* its content is offered with the log's own signature (a refusal must not be remembered against the content)
 PoisonProbe == \E l \in {hist[Depth - 1].log} :
                   \/ Update(l, "canon", LastRefused, "correct", "none")
                   \/ \E pf \in HistProofs :
-                        Update(l, "canon", [k |-> "sth", fam |-> LastRefused.fam, size |-> LastRefused.size, ts |-> LastRefused.ts,
-                                            signer |-> l, idf |-> "absent", over |-> None], pf, "none")
+                        Update(l, "canon", Mk(LastRefused, l, "absent", None, StdHdr(l), "signed"), pf, "none")
 \* the last history-building step may also be an offer of a replayed signature
 HistBuildForged == /\ Len(hist) = Depth - 2
                    /\ \E l \in HistLogs : \E g \in offered[l] \cup {UnseenDonor(l)} :
                          \E x \in {y \in ForgedContents(g) : y.ts \in HistTs} : Update(l, "canon", Forge(x, g, "absent"), "correct", "none")
+\* ... or of a member of the header family (the honest tree of the largest size under every hash byte with the key's own
+\* algorithm byte, and under every algorithm byte with sha256)
+HistHdrs(l) == {c \in FullHdrs(l) : c.fam = "H" /\ c.idf = "absent" /\ (c.hdr.alg = KeyAlg(l) \/ (c.hdr.hash = "sha256" /\ c.form = "signed"))}
+HistBuildHdr == /\ Len(hist) = Depth - 2
+                /\ \E l \in HistLogs : \E c \in HistHdrs(l) : Update(l, "canon", c, "correct", "none")
 HistNext == /\ Len(hist) < Depth
-            /\ IF Len(hist) < Depth - 1 THEN HistBuild \/ HistBuildForged
+            /\ IF Len(hist) < Depth - 1 THEN HistBuild \/ HistBuildForged \/ HistBuildHdr
                ELSE IF LastRefused # None THEN PoisonProbe ELSE HistProbe
 \* histories that reach the same (held, offered) through different storage faults are kept apart (the code under
 \* test may have been left in different states by them), and so are histories that end in the refusal of different
@@ -114,6 +123,29 @@ HistNext == /\ Len(hist) < Depth
 HistPrefix == 1..(IF Len(hist) >= Depth THEN Depth - 1 ELSE Len(hist))      \* the history-building steps taken
 HistView == <<held, cos, offered, [i \in HistPrefix |-> hist[i].fault], LastRefused,
               IF Len(hist) >= Depth THEN last ELSE None>>
+
+(* --- header cover: what the witness holds x every member of the header family ---
+   The first Depth-1 steps put one log into a state (nothing held: a read; something held: genuine honest STHs of the
+   sizes HdrBuildSizes, accepted one after the other); the last step offers that log every member of its header family
+   (every content: smaller, equal, larger, forked; every header; every form of the signature bytes), and the crafted
+   and largest-tree members of the other log's family (made from another key than the addressed log's). *)
+CONSTANTS HdrLogs,        \* logs whose header family is covered
+          HdrBuildSizes,  \* sizes of the genuine STHs the state is built from
+          HdrProofs,      \* proof labels of the probing updates
+          HdrTofuFull     \* FALSE: with nothing held (the content is compared with nothing) only the largest honest tree
+HdrLog == IF Len(hist) = 0 THEN "none" ELSE hist[1].log      \* one log per behaviour
+HdrBuild == \E l \in (IF Len(hist) = 0 THEN HdrLogs ELSE {HdrLog}) :
+               \/ GetSTH(l, "canon", "none")
+               \/ \E n \in HdrBuildSizes :
+                     /\ held[l] = None \/ (held[l] # None /\ held[l].size < n)
+                     /\ Update(l, "canon", Mk([fam |-> "H", size |-> n, ts |-> 1], l, "absent", None, StdHdr(l), "signed"), "correct", "none")
+HdrProbe == \E l \in {HdrLog} :
+               \/ \E c \in (IF held[l] = None /\ HdrTofuFull = FALSE THEN FullHdrs(l) ELSE HdrOf(l)), pf \in HdrProofs : Update(l, "canon", c, pf, "none")
+               \/ \E s \in Logs \ {l} : \E c \in FullHdrs(s) : Update(l, "canon", c, "correct", "none")
+HdrNext == /\ Len(hist) < Depth
+           /\ IF Len(hist) < Depth - 1 THEN HdrBuild ELSE HdrProbe
+\* (the number of steps taken is part of the view: a read leaves held and cos as they were)
+HdrView == <<held, cos, HdrLog, Len(hist), IF Len(hist) >= Depth THEN last ELSE None>>
 
 (* --- simulation: weighted towards updates that have a chance of moving the witness forward --- *)
 Plausible(l, c) == IF c = Garbage \/ l \notin Logs THEN FALSE
@@ -126,9 +158,15 @@ PlausibleCands(l) == {c \in PlainCands : Plausible(l, c)}
 SimDonors(l) == IF offered[l] = {} THEN {UnseenDonor(l)} ELSE offered[l]
 \* a forged STH that would be taken if its signature were good: larger than (or equal to) the stored one
 SimForged(l, g) == {Forge(ContentOf(c), g, idf) : c \in {x \in PlausibleCands(l) : x.idf = "absent"}, idf \in ForgedIdfs} \cap ReplaySTHs
+\* the member of HdrOf(s) nearest to a freely drawn (content, header, form)
+HdrPick(s, x, i, h, fo) ==
+  IF x.fam = "X" THEN (IF KeyAlg(s) = "ecdsa" THEN Mk(x, s, i, None, h, "crafted")
+                       ELSE Mk([fam |-> "H", size |-> MaxSize, ts |-> 1], s, i, None, h, "garbage"))
+  ELSE IF fo = "crafted" \/ (fo = "rawkey" /\ h.hash \notin NoHash) \/ (fo = "signed" /\ h = StdHdr(s)) THEN Mk(x, s, i, None, h, "garbage")
+  ELSE Mk(x, s, i, None, h, fo)
 SimNext ==
   /\ Len(hist) < Depth
-  /\ \E kind \in {RandomElement(1..19)}, l \in {RandomElement(Logs)} :   \* bound once (a LET would re-draw per use)
+  /\ \E kind \in {RandomElement(1..22)}, l \in {RandomElement(Logs)} :   \* bound once (a LET would re-draw per use)
         CASE kind \in 1..4 -> \E c \in {RandomElement(PlausibleCands(l))} : Update(l, "canon", c, "correct", "none")
           [] kind \in 5..6 -> \E c \in {RandomElement(PlausibleCands(l))}, pf \in {RandomElement(Proofs)} : Update(l, "canon", c, pf, "none")
           [] kind \in 7..8 -> \E l2 \in {RandomElement(AllLogs)}, sp \in {RandomElement(Spellings)}, c \in {RandomElement(PlainCands)},
@@ -150,6 +188,15 @@ SimNext ==
           \* any replayed signature, to any log, under any spelling, proof and fault
           [] kind = 18 -> \E l2 \in {RandomElement(AllLogs)}, sp \in {RandomElement(Spellings)}, c \in {RandomElement(ReplaySTHs)},
                              pf \in {RandomElement(Proofs)}, f \in {RandomElement(Faults)} : Update(l2, sp, c, pf, f)
+          \* a member of the header family of the addressed log over a content that would move the witness forward
+          [] kind \in 19..20 -> \E x \in {RandomElement({y \in HdrContents : Plausible(l, Mk(y, l, "absent", None, StdHdr(l), "signed"))} \cup {CraftedContent})},
+                                   h \in {RandomElement(Headers)}, fo \in {RandomElement(SigForms)},
+                                   pf \in {RandomElement({"correct", "correct", "empty"})} : Update(l, "canon", HdrPick(l, x, "absent", h, fo), pf, "none")
+          \* any member of the header family, to any log, under any spelling, proof and fault
+          [] kind = 21 -> \E l2 \in {RandomElement(AllLogs)}, sp \in {RandomElement(Spellings)}, s \in {RandomElement(Logs)},
+                             x \in {RandomElement(HdrContents \cup {CraftedContent})}, i \in {RandomElement(HdrIdfs)},
+                             h \in {RandomElement(Headers)}, fo \in {RandomElement(SigForms)},
+                             pf \in {RandomElement(Proofs)}, f \in {RandomElement(Faults)} : Update(l2, sp, HdrPick(s, x, i, h, fo), pf, f)
           [] OTHER -> GetSTH(l, "canon", "none")
 SimNextF == SimNext \/ Finish
 =============================================================================
